@@ -56,6 +56,15 @@ CHECKS.update({
                "Lean 4 proof (omega; Mathlib linarith/floor lemmas for the rational bound) + Go-side oracle over all 2^32 values (thorough) with model cross-check", "6/C17"),
 })
 
+CHECKS.update({
+    "C05": chk("Partial proof. Proved over the encoder model: encode_ok_finish / encode_frame (what is written is header ++ records ++ little-endian file CRC; File.Header.DataSize, File.Header.CRC for 14-byte headers and File.CRC afterwards equal the written values), encode_residue_zero (the written stream passes the whole-file CRC check), header_residue_zero, header_declares_data_size, encodeScalar_length / encodeString_length (every field occupies exactly the size its definition declares). The record-grammar clause for whole Files is checked on every run by an independent recogniser in the harness (own CRC, own record parser) and by byte equality with the model." + CORR,
+               "Lean 4 proof over the encoder model + byte-exact differential correspondence + independent grammar recogniser", "6/C05"),
+    "C06": chk("Partial proof (per layer). Proved: unsigned_roundtrip, signed_roundtrip, string_roundtrip, time_value_roundtrip — for each kind of in-domain value, what the encoder writes is read back by the decoder's field parser as the same value, in both byte orders (dec_enc: byte-order codec inverse). The composition over whole Files is checked on every run: real Encode then real Decode compared with the model's prediction and with the input under the property's equivalence." + CORR,
+               "Lean 4 proof of per-kind codec inverses + differential round-trip correspondence with equivalence oracle", "6/C06"),
+    "C07": chk("Partial proof with a recorded finding. Proved: add_preserves_type and init_matches_type (a decoded File's container always matches its file type — the invariant restored by the fix for D6), encode_type_check_passes (Encode cannot hit its nil-container panic on such a File), reencode_counterexample_utf8 (known finding D13: a stream Decode accepts and Encode rejects). The full re-encode/fixpoint statement is checked on every run over every accepted input with a generation-1/2/3 oracle." + CORR,
+               "Lean 4 proof of the type/container invariant + counterexample theorem + three-generation differential correspondence", "6/C07"),
+})
+
 NOT_YET = {}
 
 def main():
